@@ -14,6 +14,7 @@ CONSTANTS
   MaxSnap = 1
   MaxRestart = 1
   MaxInject = 1
+  MaxBattery = 0
   MaxCfg = 2
   FixedF5 = FALSE
   RecordHist = FALSE
